@@ -356,12 +356,21 @@ def sortDesc : List Obj → List Obj
   | [] => []
   | x :: xs => insertDesc x (sortDesc xs)
 
+/-- Python's normalisation of a slice bound for a list of length `n`: negative bounds count from the end -/
+def pyIdx (n : Nat) (i : Int) : Nat := if i < 0 then ((n : Int) + i).toNat else min i.toNat n
+
+/-- `l[start:stop]` -/
+def pySlice {α} (l : List α) (start stop : Int) : List α :=
+  (l.take (pyIdx l.length stop)).drop (pyIdx l.length start)
+
+/-- `managed_objects[offset:offset + maximum]` / `[offset:]` / `[:maximum]` (engine.py l.2513-2526), with
+Python's semantics for negative integers (both fields are signed Integers on the wire) -/
 def slice {α} (l : List α) (offset maxItems : Option Int) : List α :=
-  let off := match offset with | some o => o.toNat | none => 0
-  let l := l.drop off
-  match maxItems with
-  | some m => l.take m.toNat
-  | none => l
+  match offset, maxItems with
+  | some o, some m => pySlice l o (o + m)
+  | some o, none => l.drop (pyIdx l.length o)
+  | none, some m => l.take (pyIdx l.length m)
+  | none, none => l
 
 /-- the filtering loop (skipped entirely when the request has no attributes) -/
 def locateFilter (c : Ctx) (attrs : List TAttr) : List Obj → R (List Obj)
